@@ -244,6 +244,12 @@ func (s *c01Summ) noWriteOnEdge(e an.CondEdge, call *ssa.Call) bool {
 }
 
 func runC01(c *an.Ctx) {
+	// ---- C01-R17: builder wiring of the components this property rests on
+	c.Floor("C01-R17", 6)
+	builderWiring(c, "C01-R17", map[string][]string{
+		"initDNS|dnssvc.HandlersConfig": {"Handler", "Messages", "Cloner"},
+		"initDNS|dnssvc.Config":         {"Handlers", "HandleTimeout", "Cloner"},
+	})
 	c01JSONRequest(c)
 	// ---- R15: the recycled filtering context never carries the previous request's rewritten question
 	c.Floor("C01-R15", 5)
